@@ -171,7 +171,7 @@ def samples3 : BShape3 Rat → List (V3 Rat)
   | .cylinder hh r => ⟨0, hh, 0⟩ :: ⟨0, -hh, 0⟩ :: dirs2.flatMap fun u => [⟨u.x * r, -hh, u.y * r⟩, ⟨u.x * r, hh, u.y * r⟩]
   | .poly ps => ps
   | .halfspace _ => []
-  | .round i br => (samples3 i).flatMap fun p => p :: (dirs3.take 6 ++ (dirs3.drop 10).take 6).map fun u => p.add (u.smul br)
+  | .round i br => (samples3 i).flatMap fun p => p :: (dirs3.take 4 ++ (dirs3.drop 10).take 4).map fun u => p.add (u.smul br)
 def samples2 : BShape2 Rat → List (V2 Rat)
   | .ball r => dirs2.map (·.smul r)
   | .cuboid he => corners2 ⟨he.neg, he⟩
